@@ -1169,3 +1169,19 @@ Proof.
     destruct (index_alteration c) as [[al e]| | |]; cbn [bind]; try discriminate. intros H. inversion H; subst. eauto. }
   destruct (other_alter (cur (next ts))); discriminate.
 Qed.
+
+(* C10 under ParseStatement: whichever recover point catches the failure (parseDDL's or parseStatementInternal's), the Bad node of a rejected
+   piece holds exactly the tokens of the piece and parsing resumes at the terminator *)
+Theorem sp_stmt_bad p k d r : p <> [] -> Forall plainT p -> theaded k -> sp_stmt (p ++ k) = Some (d, r, 1) ->
+  (exists lvl, d = DBad lvl (ppos (cur p)) (last_pend (ppos (cur p)) p) p) /\ r = k.
+Proof.
+  intros NE F T. unfold sp_stmt. rewrite (cur_app_ne p k NE).
+  destruct (kis (cur p) "@"); [discriminate|].
+  destruct (kis (cur p) "SELECT" || kis (cur p) "WITH" || kis (cur p) "(" || kis (cur p) "FROM"); [discriminate|].
+  destruct (is_kwlike (cur p) "INSERT" || is_kwlike (cur p) "DELETE" || is_kwlike (cur p) "UPDATE"); [discriminate|].
+  destruct (kis (cur p) "CREATE" || is_kwlike (cur p) "ALTER" || is_kwlike (cur p) "DROP" || is_kwlike (cur p) "RENAME" || is_kwlike (cur p) "GRANT"
+            || is_kwlike (cur p) "REVOKE" || is_kwlike (cur p) "ANALYZE").
+  { intros H. destruct (sp_ddl_bad p k d r NE F T H) as [-> ->]. split; [eexists; reflexivity|reflexivity]. }
+  destruct (is_kwlike (cur p) "CALL"); [discriminate|].
+  rewrite (sskip_plain p [] _ k F T). cbn [app]. intros H. inversion H; subst. split; [eexists; reflexivity|reflexivity].
+Qed.
